@@ -16,10 +16,15 @@ Mirrors, as they are:
   by `HandleDispatch` (session filtered against the *latest* state) and read by `ValidateClaim`
   (which otherwise filters against the *session-end* state).
 * context flavours: block execution and `CheckTx` use non-prev contexts on the working store;
-  `app.NewContext(h)` (RPC) is a prev context on version `h`; `baseapp.handleQueryCustom` builds a
-  **non-prev** context whose header is that of the latest block and whose store is version
-  `req.Height` (`QueryCtx.asis`); the repair marks it prev and aligns the header height
-  (`QueryCtx.fixed`).
+  `app.NewContext(h)` (RPC) is a prev context on version `h`; `baseapp.handleQueryCustom` builds
+  (since /repo 7e2b97e) a **prev** context whose header height and store are both those of
+  `req.Height` (`QueryCtx.fixed`); before that commit it was a non-prev context with the latest
+  block's header over the store of `req.Height` (`QueryCtx.asis`, kept for the historical
+  counterexamples).
+* `ValidateClaim` (since /repo fbab444) always computes the session from the session-start node
+  list and the session-end state and never reads `GlobalSessionCache` (`claimSession false`).
+* The whole node with all caches and all off-chain traffic: `FNode`, `fstep`, `frun` (section
+  "The whole node").
 -/
 namespace Caches
 
@@ -232,5 +237,95 @@ def claimSession {S H Sess : Type} [DecidableEq H] (useCache : Bool) (f : Sessio
     | some x => x
     | none => f.sess hdr start end_
   else f.sess hdr start end_
+
+/-! ## The whole node: every cache, every kind of off-chain traffic (the code as it is now) -/
+
+/-- What sessions are made of. `vbc s c` = `GetValidatorsByChain` on version `s`; `sess hdr nodes
+end_` = `NewSession` from the session-start node list filtered against the state `end_`;
+`startOf`/`endOf`/`chainOf` read a session header. -/
+structure World (S C L H Sess : Type) where
+  vbc : S → C → L
+  sess : H → L → S → Sess
+  startOf : H → Nat
+  endOf : H → Nat
+  chainOf : H → C
+
+/-- Node state: the application substore with its cache (`Node`), the committed multistore
+versions, the validators-by-chain cache and the session cache. -/
+structure FNode (K V S C L H Sess : Type) where
+  app : Node K V
+  ms : List S
+  vbcCache : LRU (Nat × C) L
+  sessCache : LRU H Sess
+
+/-- Everything that can happen to a node. -/
+inductive FStep (K V S H : Type) where
+  /-- block execution / off-chain request touching the application substore (see `Step`) -/
+  | app (s : Step K V)
+  /-- `Commit`: the working application store and the multistore snapshot `ms` become a version -/
+  | commit (ms : S)
+  /-- block execution: `ValidateClaim` for session header `hdr` -/
+  | claim (hdr : H)
+  /-- off-chain: `HandleDispatch` for `hdr`, served on a context of height `at` — the RPC path
+  (`app.NewContext(latest)`) and `Query custom/pocketcore/dispatch` at `req.Height = at` alike: in
+  both the context's header height and store version agree -/
+  | dispatch (hdr : H) (at_ : Nat)
+  /-- a process restart: every node-local cache is empty again -/
+  | restart (cap : Nat)
+
+def FStep.onChain {K V S H : Type} : FStep K V S H → Bool
+  | .app s => s.onChain
+  | .dispatch _ _ => false
+  | _ => true
+
+/-- What block execution observes. -/
+inductive Obs (V Sess : Type) where
+  | appRead (v : Option V)
+  | session (s : Option Sess)
+
+variable {S C L H Sess : Type} [DecidableEq C] [DecidableEq H]
+
+/-- One step of the whole node (query context flavour `QueryCtx.fixed`, claim validation without
+the session cache). -/
+def fstep (W : World S C L H Sess) (n : FNode K V S C L H Sess) : FStep K V S H → FNode K V S C L H Sess × List (Obs V Sess)
+  | .app s => let r := step .fixed n.app s; ({ n with app := r.1 }, r.2.map .appRead)
+  | .commit m => ({ n with app := (step .fixed n.app .commit).1, ms := n.ms ++ [m] }, [])
+  | .claim hdr =>
+    match n.ms[W.startOf hdr - 1]?, n.ms[W.endOf hdr - 1]? with
+    | some st, some en =>
+      -- GetValidatorsByChain(sessionCtx = PrevCtx(start)): header height and store agree
+      let r := getVbc W.vbc (W.startOf hdr) st n.vbcCache (W.chainOf hdr)
+      ({ n with vbcCache := r.1 }, [.session (some (W.sess hdr r.2 en))])
+    | _, _ => (n, [.session none])
+  | .dispatch hdr at_ =>
+    match n.ms[W.startOf hdr - 1]?, n.ms[at_ - 1]? with
+    | some st, some cur =>
+      match (n.sessCache.get hdr).2 with
+      | some _ => ({ n with sessCache := (n.sessCache.get hdr).1 }, [])
+      | none =>
+        let r := getVbc W.vbc (W.startOf hdr) st n.vbcCache (W.chainOf hdr)
+        ({ n with vbcCache := r.1, sessCache := n.sessCache.add hdr (W.sess hdr r.2 cur) }, [])
+    | _, _ => (n, [])
+  | .restart cap =>
+    ({ n with app := { n.app with cache := LRU.empty cap }, vbcCache := LRU.empty n.vbcCache.cap,
+              sessCache := LRU.empty n.sessCache.cap }, [])
+
+def frun (W : World S C L H Sess) (n : FNode K V S C L H Sess) : List (FStep K V S H) → FNode K V S C L H Sess × List (Obs V Sess)
+  | [] => (n, [])
+  | s :: ss => let r := fstep W n s; let r' := frun W r.1 ss; (r'.1, r.2 ++ r'.2)
+
+/-- The cache-less reference: working application store and committed multistore versions only. -/
+def fstepPure (W : World S C L H Sess) (w : Store K V) (ms : List S) : FStep K V S H → (Store K V × List S) × List (Obs V Sess)
+  | .app s => let r := stepPure w s; ((r.1, ms), r.2.map .appRead)
+  | .commit m => ((w, ms ++ [m]), [])
+  | .claim hdr =>
+    match ms[W.startOf hdr - 1]?, ms[W.endOf hdr - 1]? with
+    | some st, some en => ((w, ms), [.session (some (W.sess hdr (W.vbc st (W.chainOf hdr)) en))])
+    | _, _ => ((w, ms), [.session none])
+  | _ => ((w, ms), [])
+
+def frunPure (W : World S C L H Sess) (w : Store K V) (ms : List S) : List (FStep K V S H) → (Store K V × List S) × List (Obs V Sess)
+  | [] => ((w, ms), [])
+  | s :: ss => let r := fstepPure W w ms s; let r' := frunPure W r.1.1 r.1.2 ss; (r'.1, r.2 ++ r'.2)
 
 end Caches
